@@ -93,6 +93,9 @@ pub fn run_schedule(s: &Schedule) -> Outcome {
                             _ => break,
                         }
                     }
+                    if objs[oi].extra_repr() != objs[src].extra_repr() {
+                        return fail("clone_from_differs", format!("step {stepno}: after dst.clone_from(&src) with src = {}: {:?} vs {:?}", cells_now[src].key(), objs[oi].extra_repr(), objs[src].extra_repr()));
+                    }
                     if objs[oi].debug() != objs[src].debug() {
                         return fail("clone_from_differs", format!("step {stepno}: after dst.clone_from(&src) with src = {}: Debug differs: {} vs {}", cells_now[src].key(), objs[oi].debug(), objs[src].debug()));
                     }
@@ -142,6 +145,9 @@ pub fn run_schedule(s: &Schedule) -> Outcome {
                 };
                 if a.bits() != b.bits() || r1.pos != r2.pos {
                     return fail("clone_differs", format!("step {stepno}: {key}: a clone returned {} ({} words), the original {} ({} words) on the same stream", b.show(), r2.pos, a.show(), r1.pos));
+                }
+                if c.extra_repr() != o.extra_repr() {
+                    return fail("clone_differs", format!("step {stepno}: {key}: clone differs in {:?} vs {:?}", c.extra_repr(), o.extra_repr()));
                 }
                 if c.debug() != o.debug() {
                     return fail("clone_differs", format!("step {stepno}: {key}: clone prints differently: {} vs {}", c.debug(), o.debug()));
